@@ -99,6 +99,13 @@ def run(ch, tier):
         for n in sorted(sp.states):
             if rs.flag(1, 2):
                 ren[n] = n + rs.pick(['x', '_', 'a', 'zz'])
+        # the property quantifies over renamings that keep the relative lexicographic order of the names: with names that are
+        # prefixes of each other a suffix can change it ('k' < 'ka' but 'kzz' > 'ka'); such renamings are thinned out
+        allnames = sorted(sp.states)
+        while [ren.get(n, n) for n in allnames] != sorted(ren.get(n, n) for n in allnames) or \
+                len({ren.get(n, n) for n in allnames}) != len(allnames) or any(v in sp.states for v in ren.values()):
+            bad = [n for n in sorted(ren) if ren[n] in sp.states]
+            del ren[bad[0] if bad else sorted(ren)[-1]]
         for old in rs.shuffle(sorted(ren)):
             sc.rename_state(old, ren[old])
         inv = {v: k for k, v in ren.items()}
